@@ -80,7 +80,7 @@ static void checkRoot(sd::Env& env, TBGenerator<VectorStorage>& gen, Position& p
 
 int main(int argc, char** argv) {
     Worker w(argc, argv); W = &w;
-    br::initTexel();
+    br::initTexel(); evs::check();
     std::string part = w.args.get("part", "3men");
     R.part = part;
     std::vector<std::vector<int>> classes;
